@@ -3,6 +3,7 @@ package main
 import (
 	"fmt"
 	"go/ast"
+	"go/printer"
 	"go/token"
 	"go/types"
 	"os"
@@ -16,13 +17,22 @@ import (
 const ModPath = "github.com/cloudflare/pint"
 
 // Prog is the type-checked program loaded from the working tree.
+// inlineHost: code between From and To (a helper expanded in place) now lives in function Host.
+type inlineHost struct {
+	From, To token.Pos
+	Host     *ast.FuncDecl
+}
+
 type Prog struct {
-	Repo   string
-	Fset   *token.FileSet
-	Roots  []*packages.Package
-	ByPath map[string]*packages.Package
-	Tags   string
-	Tests  bool
+	inlineHosts []inlineHost
+	inlinedAway map[*types.Func]bool // non-baseline helpers all of whose calls were expanded
+	Inlined     int                  // calls of non-baseline helpers expanded in place
+	Repo        string
+	Fset        *token.FileSet
+	Roots       []*packages.Package
+	ByPath      map[string]*packages.Package
+	Tags        string
+	Tests       bool
 
 	funcs   map[string]*FuncInfo // qualified name -> info
 	byObj   map[*types.Func]*FuncInfo
@@ -96,8 +106,18 @@ func LoadProg(repo string, tests bool, tags string, overlay map[string][]byte) (
 	if len(p.Roots) == 0 {
 		return nil, fmt.Errorf("no module packages loaded from %s", repo)
 	}
+	if os.Getenv("PINTSA_NO_INLINE") == "" {
+		p.Inlined = p.inlineNewHelpers()
+	}
 	p.normalise()
 	p.index()
+	if q := os.Getenv("PINTSA_DUMP_FUNC"); q != "" {
+		if fi := p.Func(q); fi != nil {
+			fmt.Fprintf(os.Stderr, "---- %s (inlined calls in program: %d)\n", q, p.Inlined)
+			printer.Fprint(os.Stderr, p.Fset, fi.Decl)
+			fmt.Fprintln(os.Stderr)
+		}
+	}
 	return p, nil
 }
 
@@ -130,7 +150,11 @@ func (p *Prog) normalise() {
 				}
 				return true
 			})
+			if os.Getenv("PINTSA_NO_PURETEMPS") == "" {
+				inlinePureTemps(info, f)
+			}
 			normaliseChains(f)
+			retagSwitches(info, f)
 			inlineCondTemps(info, f)
 		}
 	}
@@ -200,7 +224,7 @@ func (p *Prog) index() {
 					continue
 				}
 				obj, _ := pkg.TypesInfo.Defs[fd.Name].(*types.Func)
-				if obj == nil {
+				if obj == nil || p.inlinedAway[obj] {
 					continue
 				}
 				fi := &FuncInfo{Pkg: pkg, Decl: fd, Obj: obj, Name: funcQName(obj)}
@@ -443,6 +467,72 @@ func inlineCondTemps(info *types.Info, f *ast.File) {
 		case *ast.CommClause:
 			x.Body = rewrite(x.Body)
 		}
+		return true
+	})
+}
+
+// retagSwitches turns a tagless switch all of whose case expressions compare
+// one and the same call-free expression (or len(x)) with constants into the
+// tagged switch on that expression: `switch { case len(m) == 0: … case len(m)
+// == 1: … }` (or the if/else-if chain it was normalised from) and `switch
+// len(m) { case 0: … case 1: … }` get one shape.
+func retagSwitches(info *types.Info, f *ast.File) {
+	simple := func(e ast.Expr) bool {
+		ok := true
+		ast.Inspect(e, func(n ast.Node) bool {
+			switch x := n.(type) {
+			case *ast.CallExpr:
+				id, isID := x.Fun.(*ast.Ident)
+				if !isID || (id.Name != "len" && id.Name != "cap") {
+					ok = false
+				}
+			case *ast.FuncLit, *ast.CompositeLit, *ast.UnaryExpr:
+				if u, isU := x.(*ast.UnaryExpr); !isU || u.Op == token.ARROW || u.Op == token.AND {
+					ok = false
+				}
+			}
+			return ok
+		})
+		return ok
+	}
+	ast.Inspect(f, func(n ast.Node) bool {
+		sw, ok := n.(*ast.SwitchStmt)
+		if !ok || sw.Tag != nil || sw.Init != nil || len(sw.Body.List) < 2 {
+			return true
+		}
+		var tag ast.Expr
+		tagID := ""
+		nCases := 0
+		for _, st := range sw.Body.List {
+			cc := st.(*ast.CaseClause)
+			for _, e := range cc.List {
+				be, isBin := ast.Unparen(e).(*ast.BinaryExpr)
+				if !isBin || be.Op != token.EQL {
+					return true
+				}
+				tv, isConst := info.Types[be.Y]
+				if !isConst || tv.Value == nil || !simple(be.X) {
+					return true
+				}
+				id := exprIdentity(info, be.X)
+				if tag == nil {
+					tag, tagID = be.X, id
+				} else if id != tagID {
+					return true
+				}
+				nCases++
+			}
+		}
+		if tag == nil || nCases < 2 {
+			return true
+		}
+		for _, st := range sw.Body.List {
+			cc := st.(*ast.CaseClause)
+			for i, e := range cc.List {
+				cc.List[i] = ast.Unparen(e).(*ast.BinaryExpr).Y
+			}
+		}
+		sw.Tag = tag
 		return true
 	})
 }
